@@ -834,6 +834,15 @@ class Interp:
             if len(cands) == 1:
                 return self.call_fn(cands[0], [])
             raise Unsupported(f"promoted constant {s}: {cands[:3]}")
+        us = re.fullmatch(r"([\w:]+) \{\{\s*\}\}", s)
+        if us and us.group(1).split("::")[-1] in self.harper_types:
+            return Adt(us.group(1).split("::")[-1], [])  # a field-less struct literal `Name {{  }}`
+        st = re.fullmatch(r"\{alloc\d+: &([A-Z][A-Z0-9_]*)\}", s)
+        if st:
+            # a reference to a `static NAME` (lazy_static! items): an opaque handle; its `Deref` must be supplied by the harness
+            a = Adt(st.group(1), [])
+            a.static_name = st.group(1)
+            return Ref(Cell(a))
         raise Unsupported(f"constant {s}")
 
     def make_variant(self, name, fields):
